@@ -16,22 +16,28 @@ MANIFEST = dict(
     text="For every generated case the spec computes the exit status (101 + kind), the list of (function, line) frames innermost first "
          "and the exact stdout including an unterminated last line; the observed report of the real executable must coincide, for "
          "division by zero, overflow, index, assert and shift traps reached through chains of plain functions, recursion and lambdas "
-         "(small callees that the optimizing compiler inlines), with both code generators and two collectors.",
+         "(small callees that the optimizing compiler inlines), with both code generators and two collectors; a code-layout sweep "
+         "(each trap kind behind 0..31 (thorough 0..47) non-trapping statements) varies the size of the failing function.",
     note="Trusted: TLC; frames the implementation inserts on its own (std thunks for lambda calls) are located outside the program "
          "file and ignored; columns are not compared; nil/cast/OOM/stack-overflow traps are covered by C13/C02, not here.",
     ref="4/C14")
 CATS = {"MISMATCH-status", "MISMATCH-unflushed-output", "MISMATCH-trap-report", "MISMATCH-output"}
 FEATS = ["chain", "fn", "rec", "lambda", "print_nonl", "array", "conv", "shift", "global"]
+# code-layout sweep: case i = trap kind i mod 5 behind i div 5 filler statements that cannot trap (the function's code size, hence the
+# address right after its out-of-line trap call, sweeps all alignments relative to the next function)
+LAYOUT = ["chain", "layout"]
 
 
 def run(ctx):
     build_repo(boots=True)
     if ctx.quick:
         plan = [(ctx.seed * 100 + 7, 50, FEATS, [("cannon", None), ("boots", None)], ("",)),
-                (ctx.seed * 100 + 8, 20, FEATS, [("cannon", "copy")], ("--gc-stress",))]
+                (ctx.seed * 100 + 8, 20, FEATS, [("cannon", "copy")], ("--gc-stress",)),
+                (ctx.seed * 100 + 9, 160, LAYOUT, [("cannon", None), ("boots", None)], ("",))]
     else:
         plan = [(ctx.seed * 100 + i, 80, FEATS, [("cannon", None), ("boots", None)], ("",)) for i in range(7, 15)]
         plan += [(ctx.seed * 100 + 30, 60, FEATS, [("cannon", "copy"), ("boots", "copy")], ("", "--gc-stress"))]
+        plan += [(ctx.seed * 100 + 40 + i, 240, LAYOUT + extra, [("cannon", None), ("boots", None)], ("",)) for i, extra in enumerate([[], ["lambda"], ["print_nonl"]])]
     totals, fails = run_plan(ctx, plan, CATS, "trap report")
     if totals["ok"] == 0:
         raise ToolError("no case was judged ok: " + str(dict(totals)))
